@@ -1,5 +1,6 @@
 import SxVerif.Model.Recv
 import SxVerif.Spec.Recv
+import SxVerif.Generated.Receiver
 import Driver.Util
 
 namespace Driver
@@ -36,6 +37,18 @@ def handleRecv : List String → Option String
       | some (r, closed) => closed && Spec.Recv.holds outs cancel r
       | none => false
     pure s!"{showRecv m}\t{b2s v}"
+  | _ => none
+
+/-- longest pause of the receive loop after a read error: at most the constant regenerated from
+    receiver.go plus 100 ms of scheduling slack -/
+def handleRecvPause : List String → Option String
+  | [_syms, obs] => do
+    let v := match obs.splitOn "=" with
+      | ["maxpause_us", n] => match n.toNat? with
+        | some us => decide (us * 1000 ≤ Generated.recvErrorPauseNs + 100000000)
+        | none => false
+      | _ => false
+    pure s!"{obs}\t{b2s v}"
   | _ => none
 
 end Driver
